@@ -577,6 +577,11 @@ func (d ServicesData) analyze(service *expr.ServiceExpr) *Data {
 	{
 		scope = codegen.NewNameScope()
 		scope.Unique("Use") // Reserve "Use" for Endpoints struct Use method.
+		// Reserve the names of the field and methods that the transport
+		// server structs define next to one field per service method.
+		for _, n := range []string{"Mounts", "Mount", "Service", "MethodNames"} {
+			scope.Unique(n)
+		}
 		viewScope = codegen.NewNameScope()
 		pkgName = scope.HashedUnique(service, strings.ToLower(codegen.Goify(service.Name, false)), "svc")
 		viewspkg = pkgName + "views"
